@@ -5,6 +5,7 @@
 -/
 import Emitter.Lemmas.Keys
 import Emitter.Lemmas.Broker
+import Emitter.Props.Tie.Key
 namespace Emitter.C11
 open Emitter Emitter.Security Emitter.Broker
 
